@@ -201,6 +201,10 @@ func TestVerifC04(t *testing.T) {
 	for sc := 0; sc < nScen; sc++ {
 		seed := scenSeed(sc)
 		o := optsFor(sc, seed)
+		o.EpochNoKills = sc%2 == 0
+		if o.EpochNoKills {
+			o.ZeroStakes = false
+		}
 		w := NewWorld(o)
 		twin := w.AddTwin()
 		if !startScenario(w, rep, false) {
